@@ -68,7 +68,7 @@ inductive Ev where
   | query (q : Query)
   /-- fire one pending `_process_queue` idle source -/
   | procQueue
-  /-- fire a TX callback; the socket accepts at most `n ≥ 1` octets -/
+  /-- fire a TX callback; the socket accepts at most `n` octets (`0`: the send would block) -/
   | pump (n : Nat)
   /-- RX callback delivering these octets (non-empty, ≤ CHUNK_SIZE) -/
   | rx (chunk : Bytes)
@@ -124,6 +124,12 @@ structure Ep where
   rxMap : List (Nat × Bytes) := []
   pqPend : Bool := false
   pqSources : Nat := 0
+  /-- `__avail_tx_notls_id is not None`: a TX watch is registered -/
+  txWatch : Bool := false
+  /-- `__avail_tx_notls_pend is not None`: an immediate (idle) call of the TX callback is registered -/
+  txIdle : Bool := false
+  /-- number of installed GLib sources whose callback is `_avail_tx_notls` (tracked while open) -/
+  txSrc : Nat := 0
   /-- ghost: every message handed to `send_message`, in order -/
   emitted : List Msg := []
   /-- ghost: every message handed to `recv_message`, in order -/
@@ -159,9 +165,14 @@ def idleReset (e : Ep) : Ep :=
 
 /- ------------------------------------------------------------------ sending -/
 
+/-- `Connection.send_ready`: make sure a TX watch and an immediate call of the TX callback are installed -/
+def sendReady (e : Ep) : Ep :=
+  { e with txWatch := true, txIdle := true,
+           txSrc := e.txSrc + (if e.txWatch then 0 else 1) + (if e.txIdle then 0 else 1) }
+
 /-- `Messenger.send_message` -/
 def sendMessage (e : Ep) (m : Msg) : Ep :=
-  idleReset (kaReset { e with txBuf := e.txBuf ++ encode m, emitted := e.emitted ++ [m] })
+  idleReset (kaReset (sendReady { e with txBuf := e.txBuf ++ encode m, emitted := e.emitted ++ [m] }))
 
 def setState (e : Ep) (s : String) : Res :=
   if e.state = s then (e, []) else ({ e with state := s }, [.sig "session_state_changed" [.str s]])
@@ -181,7 +192,8 @@ def doClose (e : Ep) : Res :=
   if e.closed then (e, [])
   else
     let r := flushPendStart e
-    ({ r.1 with closed := true, kaDeadline := none, idleDeadline := none }, r.2 ++ [.closed])
+    ({ r.1 with closed := true, kaDeadline := none, idleDeadline := none,
+                txWatch := false, txIdle := false, txSrc := 0 }, r.2 ++ [.closed])
 
 /-- `Messenger.is_sess_idle` ∧ ContactHandler's additional conditions -/
 def isSessIdle (e : Ep) : Bool :=
@@ -272,7 +284,7 @@ def writeConn (e : Ep) (n : Nat) (up : Bool) : Res :=
   else
     let data := e.connBuf.take chunkSize
     let k := min n data.length
-    if k == 0 then doClose e
+    if k == 0 then (e, [])      -- the send would block (EAGAIN): nothing written, try again later
     else
       let e2 := { e with connBuf := e.connBuf.drop k, accepted := e.accepted ++ data.take k }
       if up && e2.connBuf.isEmpty then
@@ -445,7 +457,13 @@ def step (e : Ep) (ev : Ev) : Res :=
     if e.pqSources == 0 then (e, []) else
     let r := processQueue { e with pqPend := false }
     ({ r.1 with pqSources := if r.2.2 then r.1.pqSources else r.1.pqSources - 1 }, r.2.1)
-  | .pump n => pump e n
+  | .pump n =>
+    -- the TX callback runs only while one of its sources is installed; it stays installed unless
+    -- the callback found nothing to pull and nothing left to write (`cont`)
+    if e.txSrc == 0 then (e, []) else
+    let r := pump { e with txIdle := false } n
+    let cont := r.1.closed || !r.1.connBuf.isEmpty || !upEmpty e
+    ({ r.1 with txWatch := r.1.txWatch && cont, txSrc := if cont then r.1.txSrc else r.1.txSrc - 1 }, r.2)
   | .rx chunk => recvRaw e chunk
   | .rxEof => doClose e
   | .keepaliveTimer =>
